@@ -114,3 +114,42 @@ Theorem C02_other_target_rule_refuted :
   select (write_slot CrashHistories.ex_two (negb (current_slot CrashHistories.ex_two)) SInvalid) = Some (mkHeader 5 [4%N]).
 Proof. exact CrashHistories.two_crashes_other_rule_loses_all. Qed.
 Print Assumptions C02_other_target_rule_refuted.
+
+(* ---- histories at the ENGINE level, with contents: a transaction runs, the power fails at any point of its commit (any
+   fate of every un-synced write), the machine restarts and reopens the file on whatever header the crashed disk selects,
+   the next transaction runs from there -- any number of times. `crash_run` follows the branch the image dictates (the
+   attempt is lost: the previous state reopened; or durable: the new state). Whatever the cuts: the final disk selects the
+   final engine state's header with every page it needs settled, the complete engine invariant holds, and the database
+   reads as the reference after EXACTLY the transactions whose commit survived, in order -- never a mix. A run exists for
+   every attempt list whose transactions the model accepts (totality), and an attempt that issued its whole I/O sequence
+   survives. ---- *)
+From Jamm Require EngineAbs EngineReopen EngineCrashHistories.
+Theorem C02_engine_crash_histories : forall st0 cd0 l surv stf cdf,
+  EngineCrashHistories.crash_run st0 cd0 l surv stf cdf -> EngineCrashHistories.Sim st0 cd0 -> EngineReopen.db_inv st0 ->
+  EngineCrashHistories.Sim stf cdf /\ EngineReopen.db_inv stf /\
+  EngineAbs.abs_db stf = EngineCrashHistories.sem_survivors surv (EngineAbs.abs_db st0).
+Proof. exact EngineCrashHistories.engine_crash_history. Qed.
+Print Assumptions C02_engine_crash_histories.
+
+Theorem C02_engine_crash_histories_exist : forall l st cd, EngineCrashHistories.Sim st cd -> EngineReopen.db_inv st ->
+  EngineCrashHistories.attempts_okE st l -> exists surv stf cdf, EngineCrashHistories.crash_run st cd l surv stf cdf.
+Proof. exact EngineCrashHistories.crash_run_total. Qed.
+Print Assumptions C02_engine_crash_histories_exist.
+
+Check EngineCrashHistories.engine_attempt_complete. Check EngineCrashHistories.crash_run_survivors.
+Check EngineCrashHistories.ExCrash.two_crashes. Check EngineCrashHistories.ExCuts.lost_cut. Check EngineCrashHistories.ExCuts.durable_cut.
+
+(* ---- the whole alphabet in one history (EngineMixedHistories): completed commits, commits that report an I/O error (the
+   process goes on), power losses during a commit followed by a reopen, clean reopens, and write transactions that are
+   dropped without commit, in ANY order and number: the disk selects the final state's header with settled pages, the
+   complete engine invariant holds, and the database reads as the reference after exactly the commits that survived, in
+   order (an in-order sub-list of the commit-like events: `mixed_run_survivors`); a run exists whenever the model accepts
+   the transactions on every continuation (`mixed_run_total`). ---- *)
+From Jamm Require EngineAbs EngineReopen EngineCrashHistories EngineMixedHistories.
+Theorem C02_engine_mixed_histories : forall st0 cd0 l surv stf cdf,
+  EngineMixedHistories.mixed_run st0 cd0 l surv stf cdf -> EngineCrashHistories.Sim st0 cd0 -> EngineReopen.db_inv st0 ->
+  EngineCrashHistories.Sim stf cdf /\ EngineReopen.db_inv stf /\
+  EngineAbs.abs_db stf = EngineCrashHistories.sem_survivors surv (EngineAbs.abs_db st0).
+Proof. exact EngineMixedHistories.engine_mixed_history. Qed.
+Print Assumptions C02_engine_mixed_histories.
+Check EngineMixedHistories.mixed_run_survivors. Check EngineMixedHistories.mixed_run_total. Check EngineMixedHistories.ExMixed.every_kind.
